@@ -396,15 +396,16 @@ func (sc *srvScen) hostileReplies(variant int) {
 			// not, and the application closing it (or stopping the traversal) at a PRNG-chosen moment while the
 			// hostile replies are being delivered
 			var opts []dht.AnnounceOpt
-			if variant%3 != 0 {
-				opts = append(opts, dht.AnnouncePeer(dht.AnnouncePeerOpts{Port: 6881, ImpliedPort: variant%4 == 1}))
+			g := variant / 5 // independent digits of g select the options
+			if g%3 != 0 {
+				opts = append(opts, dht.AnnouncePeer(dht.AnnouncePeerOpts{Port: 6881, ImpliedPort: g%2 == 1}))
 			}
-			if variant%7 == 1 {
+			if (g/3)%4 == 1 {
 				opts = append(opts, dht.Scrape())
 			}
-			reading := variant%6 != 1
+			reading := (g/12)%3 != 1 && g%5 != 2
 			closeAfter := time.Duration(-1)
-			if variant%15 >= 6 || !reading {
+			if (g/2)%3 != 0 || !reading {
 				closeAfter = time.Duration(sc.r.rng.Intn(3000)) * time.Microsecond
 			}
 			sc.ev("announce: opts=%d reading=%v closeAfter=%v", len(opts), reading, closeAfter)
@@ -419,7 +420,7 @@ func (sc *srvScen) hostileReplies(variant int) {
 				}
 				if closeAfter >= 0 {
 					time.Sleep(closeAfter)
-					if variant%2 == 0 {
+					if g%4 == 3 {
 						a.StopTraversing()
 					}
 					a.Close()
@@ -541,7 +542,7 @@ func (r *Run) c01Maintenance(i int) {
 	waitFor(func() bool { return budget.Load() <= 0 }, 600*time.Millisecond)
 	bl.probe.Store(nil)
 	sc.resend.Store(int64(time.Hour))
-	sc.ev("table maintenance over %d contacts with %d arrivals at blocklist look-ups", sc.s.NumNodes(), ctr.Load())
+	sc.ev("table maintenance with %d arrivals at blocklist look-ups", ctr.Load())
 	sc.r.count(fmt.Sprintf("maint/%d/%d", i, ctr.Load()), ctr.Load() > 0)
 	sc.probe()
 	r.Result.TracesValidated++
